@@ -19,6 +19,15 @@ UnpackOK(e) ==
        /\ e.ok2 /\ e.wire2 = EncName(d.name)       \* ... and the packer maps back to the same octets
   ELSE ~(d.ok /\ d.hops <= 1)                      \* a valid name (at most one pointer) must unpack
 
+\* respell: a text in ANY spelling of its octets (raw, \c, \DDD) given to the real packer and IsDomainName: both judge
+\* it as the specification does, and the packer writes the octets the one reader of text (Parse) reads
+RespellOK(e) ==
+  LET p == Parse(e.text)  acc == p.st = "ok" /\ p.fq /\ ValidName(p.labels) IN
+  \/ p.st = "undef"                               \* \DDD > 255: outside the universe (the recorder does not write it)
+  \/ /\ e.isdn = acc
+     /\ e.ok = acc
+     /\ (acc /\ e.ok => e.wire = EncName(p.labels))
+
 HelpersOK(e) ==
   LET t == e.text  p == Parse(t) IN
   /\ p.st = "ok"
@@ -26,14 +35,17 @@ HelpersOK(e) ==
   /\ e.split = p.starts
   /\ e.pieces = SplitDomainNameSpec(t)
   /\ e.canon = CanonicalSpec(t)
-  /\ \A k \in 1..Len(e.prev) : LET r == PrevLabelSpec(t, k - 1) IN e.prev[k] = <<r.i, IF r.start THEN 1 ELSE 0>>
-  /\ \A k \in 1..Len(e.next) : LET r == NextLabelSpec(t, p.starts[k]) IN e.next[k] = <<r.i, IF r.end THEN 1 ELSE 0>>
+  \* PrevLabelSpec(t, k-1) / NextLabelSpec(t, start k), computed from the one parse (Names: ...From, MC_Names: SteppersFromStarts)
+  /\ \A k \in 1..Len(e.prev) : LET r == PrevLabelFrom(p.starts, Len(t), k - 1) IN e.prev[k] = <<r.i, IF r.start THEN 1 ELSE 0>>
+  /\ Len(e.next) = Len(p.starts)
+  /\ \A k \in 1..Len(e.next) : LET r == NextLabelFrom(p.starts, Len(t), p.starts[k]) IN e.next[k] = <<r.i, IF r.end THEN 1 ELSE 0>>
 
 CompareOK(e) ==
   /\ e.n = CompareSpec(e.a, e.b)
   /\ e.sub = IsSubDomainSpec(e.b, e.a)
 
 Judge(e) == CASE e.ev = "unpack"  -> UnpackOK(e)
+              [] e.ev = "respell" -> RespellOK(e)
               [] e.ev = "helpers" -> HelpersOK(e)
               [] e.ev = "compare" -> CompareOK(e)
               [] OTHER -> FALSE
